@@ -192,6 +192,9 @@ func renderLogicProfile(fs []logicFormula, kinds []int, spell int) string {
 	return renderLogicProfileLevels(fs, kinds, spell, nil)
 }
 
+// logicMessages overrides the message of a validation (fid -> any YAML value, e.g. a number or null)
+var logicMessages map[string]any
+
 func renderLogicProfileLevels(fs []logicFormula, kinds []int, spell int, level map[string]string) string {
 	names := map[string][]any{}
 	vals := map[string]any{}
@@ -204,6 +207,13 @@ func renderLogicProfileLevels(fs []logicFormula, kinds []int, spell int, level m
 		v := renderFormula(f.AST, kinds, spell)
 		v["targetClass"] = "ex.T"
 		v["message"] = "formula " + f.FID
+		if m, ok := logicMessages[f.FID]; ok {
+			if m == "ABSENT" {
+				delete(v, "message")
+			} else {
+				v["message"] = m
+			}
+		}
 		vals[f.FID] = v
 	}
 	doc := map[string]any{"profile": "logic", "prefixes": map[string]any{"ex": exNS}, "validations": vals}
